@@ -151,6 +151,8 @@ pub struct Ctx {
     pub known_hits: BTreeMap<String, (String, u64)>, // key prefix -> (what, count)
     pub rules: Vec<String>,
     pub reported_keys: BTreeSet<String>,
+    /// digest over the event-log digests of all runs in index order: equal across processes and worker counts
+    pub batch_digest: u64,
 }
 
 impl Ctx {
@@ -180,6 +182,7 @@ impl Ctx {
             known_hits: BTreeMap::new(),
             rules: vec![],
             reported_keys: BTreeSet::new(),
+            batch_digest: 0xcbf29ce484222325,
         }
     }
 
@@ -230,6 +233,7 @@ impl Ctx {
         for (i, r) in results.into_iter().enumerate() {
             let Some((sc, out)) = r else { continue };
             self.evaluations += 1;
+            self.batch_digest = prng::splitmix64(self.batch_digest ^ out.digest);
             self.digests.insert(out.digest);
             if out.nontrivial {
                 self.nontrivial_digests.insert(out.digest);
@@ -319,6 +323,7 @@ impl Ctx {
             "rule": self.rules.join(" | "),
             "samples": self.samples,
             "distinct_digests": self.digests.len(),
+            "batch_digest": format!("{:016x}", self.batch_digest),
             "distinct_interleavings": self.interleavings.len(),
             "runs_per_hour": runs_per_hour,
             "seeds_per_hour": runs_per_hour,
